@@ -19,4 +19,5 @@
 #include "c16.hpp"
 #include "c17.hpp"
 #include "c18.hpp"
+#include "c19.hpp"
 #include "c20.hpp"
